@@ -449,6 +449,30 @@ pub fn run(ctx: &Ctx) -> i32 {
                     }
                 }
             }
+            // an input file that is not a regular file: the pipe named as /dev/stdin, alone and after a regular file
+            {
+                let reg = sut::TempFiles::new(&[&b"r1\nr2\n"[..]]);
+                for c in contents.iter().chain([&b"a\nb\nc\r\n\nd"[..]].iter()) {
+                    for with_reg in [false, true] {
+                        let mut args: Vec<&str> = vec!["-d", &defp];
+                        if with_reg {
+                            args.push(&reg.paths[0]);
+                        }
+                        args.extend(["/dev/stdin", "--format", "json", "-c", "SELECT input FROM t"]);
+                        if let Some(got) = sut::run_cli_stdin(&args, c) {
+                            let mut exp: Vec<String> = if with_reg { vec!["r1".into(), "r2".into()] } else { vec![] };
+                            exp.extend(ref_lines(c).iter().map(|l| { let mut l = l.clone(); if l.last() == Some(&0u8) { l.pop(); } String::from_utf8_lossy(&l).to_string() }));
+                            let out: Vec<String> = got.0.iter().filter(|l| !l.is_empty()).map(|l| serde_json::from_str::<J>(l).ok().and_then(|j| j["input"].as_str().map(|s| s.to_string())).unwrap_or_else(|| format!("<{}>", l))).collect();
+                            ncli += 1;
+                            col.eval(1);
+                            col.nontrivial(h64(&("cli-dev-stdin", c, with_reg)));
+                            if out != exp {
+                                col.fail(fail("lines:cli:pipe-named-as-file".into(), format!("sqlgrep with input file /dev/stdin (a pipe fed {:?}){} printed {:?}, expected {:?}", String::from_utf8_lossy(c), if with_reg { " after a regular file [r1 r2]" } else { "" }, out, exp), json!({"layer": "cli", "stdin": hex(c), "dev_stdin": true, "with_regular_file": with_reg}), json!(exp), json!({"stdout": out, "stderr": got.1.lines().take(3).collect::<Vec<_>>()}), 1));
+                            }
+                        }
+                    }
+                }
+            }
             // sessions: all sequences (<= 3) of statements typed into one running program over two input files; every
             // statement reads every line of every file again, whatever happened before
             let tmp = sut::TempFiles::new(&[&b"a\nb\n"[..], &b"c\nd"[..]]);
